@@ -905,6 +905,43 @@ def const_getattr(node):
     return ast.fix_missing_locations(_ConstGetattr().visit(node))
 
 
+class _ConstSetattr(ast.NodeTransformer):
+    """the statement `setattr(x, "name", v)` (literal identifier) is the assignment `x.name = v`"""
+
+    def visit_Expr(self, n):
+        c = n.value
+        if isinstance(c, ast.Call) and isinstance(c.func, ast.Name) and c.func.id == "setattr" and len(c.args) == 3 and not c.keywords \
+                and isinstance(c.args[1], ast.Constant) and isinstance(c.args[1].value, str) and c.args[1].value.isidentifier() \
+                and not any(isinstance(a, ast.Starred) for a in c.args):
+            tgt = ast.Attribute(value=c.args[0], attr=c.args[1].value, ctx=ast.Store())
+            return ast.fix_missing_locations(ast.copy_location(ast.Assign(targets=[tgt], value=c.args[2]), n))
+        return n
+
+    visit_FunctionDef = visit_AsyncFunctionDef = visit_ClassDef = visit_Lambda = lambda self, n: n
+
+
+def const_setattr(func):
+    """opt-in (not part of normalize_function): `setattr(x, "name", v)` statements of `func` (in place; hand in a copy) as plain
+    attribute stores -- after unroll_static_loops this reads a table `for name, v in (("a", e1), ("b", e2)): setattr(self, name, v)`
+    as `self.a = e1; self.b = e2`"""
+    tr = _ConstSetattr()
+
+    def block(stmts):
+        out = []
+        for st in stmts:
+            for fld in ("body", "orelse", "finalbody"):
+                b = getattr(st, fld, None)
+                if isinstance(b, list) and b and isinstance(b[0], ast.stmt) and not isinstance(st, (ast.FunctionDef, ast.ClassDef, ast.AsyncFunctionDef)):
+                    setattr(st, fld, block(b))
+            if isinstance(st, ast.Try):
+                for h in st.handlers:
+                    h.body = block(h.body)
+            out.append(tr.visit(st) if isinstance(st, ast.Expr) else st)
+        return out
+    func.body = block(func.body)
+    return func
+
+
 # ----------------------------------------------------------------------------------------------------- closure dispatch
 
 def specialise_dispatch(func):
